@@ -296,6 +296,24 @@ def run(check, repo: Repo) -> None:
     check.decide(not late_reset, "C09-R4", "Ptychography.reconstruct: the batcher is built after the reset has (re)installed the generator", "", pmod.line(bc[0]),
                  fail_detail=f"self.reset_recon() (line {reccfg.nodes[late_reset[0]].lineno if late_reset else '?'}) runs after SimpleBatcher(rng=self.rng) was built: the batcher keeps the "
                              f"previous, already advanced generator and the shuffle order after a reset no longer restarts from the seed")
+    # the batcher iterated in this call is the one built in this call: an object kept on self from an earlier call carries the generator
+    # that was current THEN (reset_recon → _reset_rng installs a new Generator object, it does not rewind the old one)
+    from ..core.repo import enclosing_stmt as _encl
+    bst = _encl(bc[0])
+    bname = bst.targets[0].id if isinstance(bst, ast.Assign) and isinstance(bst.targets[0], ast.Name) else None
+    if bname is None:
+        raise AnalysisError("Ptychography.reconstruct: the SimpleBatcher is not bound to a local name")
+    odefs = [d_ for d_ in definitions(rec, bname) if d_ is not bc[0]]
+    kept = [d_ for d_ in odefs if isinstance(d_, ast.AST) and any(isinstance(x, ast.Attribute) and dotted(x.value) == "self" for x in ast.walk(d_))
+            and not any(call_name(c) == "SimpleBatcher" for c in calls_in(d_))]
+    key_ = "Ptychography.reconstruct: the batcher iterated is the one constructed in this call (with the generator current after the reset)"
+    if kept:
+        check.violated("C09-R4", key_, f"`{bname} = {unparse(kept[0])[:60]}` re-uses an object stored by an earlier call: it holds the Generator that was installed before "
+                       f"this call's reset, so a repeated run from the same seed shuffles from an already advanced stream", pmod.line(kept[0]), definite=True)
+    elif odefs:
+        raise AnalysisError(f"Ptychography.reconstruct: `{bname}` has a second definition that is not recognised")
+    else:
+        check.holds("C09-R4", key_, "single definition", pmod.line(bc[0]))
     # a reset re-creates the schedulers WITH this call's number of iterations (reset_optimizer() rebuilds them without it, so schedulers whose
     # parameters derive from num_iter — exp with only `factor` — would differ from the first run)
     ss = [c for c in calls_in(rec) if (call_name(c) or "") == "self.set_schedulers"]
